@@ -518,6 +518,12 @@ def allocatedSelector (quota : Rat → Nat → Rat) (votes : SProfile) (n : Nat)
   let e ← allocLoop q n cv [] n
   pure (e.flatMap (fun p => List.replicate p.2 p.1))
 
+/-- the selector on ballots with arbitrary exact weights (`int` or `Fraction` counts) -/
+def allocatedSelectorW (quota : Rat → Nat → Rat) (cv : WProfile) (n : Nat) : Except Err (List Key) := do
+  let q := quota ((cv.map (·.2)).sum) n
+  let e ← allocLoop q n cv [] n
+  pure (e.flatMap (fun p => List.replicate p.2 p.1))
+
 /-! ### Allocated score by definition (tie-free rounds, no ballot running out)
 
   Each seat: the candidate with the strictly greatest weighted score sum `Σ grade · weight`; one quota of its strongest
